@@ -512,3 +512,118 @@ def mainImplOfTrait (trait_ : T) (idx : Nat) (g : T × ABG × List Blk) : Gen T 
     | _, _, _, _ => .panic
 
 end DI
+
+namespace DI
+
+/-! ### inherent mode: helper trait (helper_trait.rs:16-47) and main impl (main_trait.rs:110-115) -/
+
+/-- a declared parameter as `impl_generics` prints it after `remove_param_bounds`: no bounds, no default -/
+def bareParam : T → T
+  | .node "GenericParam::Lifetime" [] [.node "LifetimeParam" [] [_, l, _, _]] =>
+      .node "GenericParam::Lifetime" [] [.node "LifetimeParam" [] [ignAttrs, l, tNone, tList []]]
+  | .node "GenericParam::Type" [] [.node "TypeParam" [] (_ :: id :: _)] =>
+      .node "GenericParam::Type" [] [.node "TypeParam" [] [ignAttrs, id, tNone, tList [], tNone, tNone]]
+  | .node "GenericParam::Const" [] [.node "ConstParam" [] [_, id, ty, _, _]] =>
+      .node "GenericParam::Const" [] [.node "ConstParam" [] [ignAttrs, id, ty, tNone, tNone]]
+  | t => t
+
+def insertParamSorted (p : T) : List T → List T
+  | [] => [p]
+  | q :: qs =>
+      -- key: (!is_lifetime, ident); stable
+      let kp := (!isLifetimeParam p, (paramIdent p).getD "")
+      let kq := (!isLifetimeParam q, (paramIdent q).getD "")
+      if (kq.1 < kp.1) || (kq.1 == kp.1 && kq.2 ≤ kp.2) then q :: insertParamSorted p qs else p :: q :: qs
+
+def sortParams (ps : List T) : List T := ps.foldr insertParamSorted []
+
+def traitItemOfImplItem : T → Gen T
+  | .node "ImplItem::Const" [] [_, _, _, id, g, ty, _] =>
+      if g == emptyGenerics then .ok (.node "TraitItem::Const" [] [ignAttrs, id, emptyGenerics, ty, tNone]) else .unmodelled
+  | .node "ImplItem::Type" [] [_, _, _, id, g, _] =>
+      .ok (.node "TraitItem::Type" [] [ignAttrs, id, itemGenerics g, tNone, tList [], tNone])
+  | .node "ImplItem::Fn" [] [_, _, _, sig, _] =>
+      .ok (.node "TraitItem::Fn" [] [ignAttrs, sig, tNone, .node "Some" ["Semi"] []])
+  | _ => .panic
+
+/-- the self type's last-segment identifier when it can be re-parsed as a trait name (`trait #self_ty …`) -/
+def selfTraitIdent : T → Option String
+  | .node "Type::Path" [] [.node "None" [] [], .node "Path" [] [.node "IgnL" [] [.node "None" [] []],
+      .node "List" [] [.node "PathSegment" [] [.node "Ident" [x] [], _]]]] => some x
+  | _ => none
+
+def helperTraitOfInherent (exampleItem : T) (idx nkeys : Nat) : Gen T :=
+  match exampleItem with
+  | .node "ItemImpl" [] [_, _, unsafety, .node "Generics" [] [_, .node "List" [] ps, _, _], _, st, .node "List" [] items] =>
+      (match selfTraitIdent st, genAll (items.map traitItemOfImplItem) with
+       | some x, .ok its =>
+          let sorted := sortParams (ps.map bareParam)
+          let start := sorted.length
+          let keys := (List.range nkeys).map (fun i => keyParam (genIndexedIdent (start + i)))
+          let all := sorted.filter isLifetimeParam ++ keys ++ sorted.filter (fun p => !isLifetimeParam p)
+          let (lt, gt) := if ps.isEmpty then (tNone, tNone) else (.node "Some" ["Lt"] [], .node "Some" ["Gt"] [])
+          .ok (.node "ItemTrait" [] [ignAttrs, .node "Visibility::Public" [] [], unsafety, tNone, tNone, tIdent (genIdentStr x idx),
+                .node "Generics" [] [lt, tList all, gt, tNone], tNone, tList [], tList its])
+       | none, _ => .panic
+       | _, .panic => .panic
+       | _, _ => .unmodelled)
+  | _ => .panic
+
+/-- `ImplItemResolver` on a real impl item (inherent mode keeps attributes, visibility and signatures) -/
+def delegateImplItem (href : T) : T → Gen T
+  | .node "ImplItem::Const" [] [a, v, d, id, g, ty, _] =>
+      let (q, p) := selfAsHelperPath href id
+      .ok (.node "ImplItem::Const" [] [a, v, d, id, g, ty, .node "Expr::Path" [] [ignAttrs, q, p]])
+  | .node "ImplItem::Type" [] [a, v, d, id, g, _] =>
+      let (q, p) := selfAsHelperPath href id
+      .ok (.node "ImplItem::Type" [] [a, v, d, id, g, tyPath q p])
+  | .node "ImplItem::Fn" [] [a, v, d, .node "Signature" [] [c, as_, u, abi, id, g, .node "List" [] inputs, variadic, out], _] =>
+      if variadic != tNone then .unmodelled else
+      match allSome (inputs.map fnArgAsExpr) with
+      | none => .unmodelled
+      | some args =>
+          let (q, p) := selfAsHelperPath href id
+          let call := .node "Expr::Call" [] [ignAttrs, .node "Expr::Path" [] [ignAttrs, q, p], tList args]
+          .ok (.node "ImplItem::Fn" [] [a, v, d, .node "Signature" [] [c, as_, u, abi, id, g, tList inputs, variadic, out],
+            .node "Block" [] [tList [.node "Stmt::Expr" [] [call, noLead]]]])
+  | t => .ok t
+
+def lastSegIdentOf (p : T) : Option String :=
+  match lastSegOf p with
+  | some (.node "PathSegment" [] [.node "Ident" [x] [], _]) => some x
+  | _ => none
+
+/-- `main_trait::generate`, inherent mode; `ok none` = no main impl is generated (self type is not a path) -/
+def mainImplInherent (idx : Nat) (g : T × ABG × List Blk) : Gen (Option T) :=
+  match g.2.2 with
+  | [] => .ok none
+  | first :: _ =>
+    match first.item with
+    | .node "ItemImpl" [] [a, d, u, .node "Generics" [] [lt, .node "List" [] ps, gt, _], tr, st, .node "List" [] items] =>
+      let eg := .node "Generics" [] [lt, tList ps, gt, tNone]
+      (match st with
+       | .node "Type::Path" [] [_, sp] =>
+          (match lastSegIdentOf sp, inherentSelfTy st eg with
+           | some x, some (.node "Type::Path" [] [_, argPath]) =>
+              let hargs := match lastSegOf argPath with
+                | some l => (segArgList l).getD []
+                | none => []
+              let href := helperRef (genIdentStr x idx) g.2.1.idents hargs
+              let preds := assocBoundPredicates g.2.1 href
+              let dummy := .node "ItemImpl" [] [a, d, u, emptyGenerics, tr, st, tList items]
+              let s0 : IxState := ⟨kindNames eg "GenericParam::Lifetime", kindNames eg "GenericParam::Type",
+                                   kindNames eg "GenericParam::Const", [], [], [], 0⟩
+              let s := ixL (ixT s0 dummy) preds
+              (match allSome (s.ixCo.map (fun xi => newConstParam eg xi.1)), genAll (items.map (delegateImplItem href)) with
+               | some cps, .ok finals =>
+                  let params := s.ixLt.map (fun xi => newLifetimeParam xi.1) ++ s.ixTy.map (fun xi => newTypeParam xi.1) ++ cps
+                  .ok (some (.node "ItemImpl" [] [a, d, u, .node "Generics" [] [lt, tList params, gt, mkWhere preds], tr, st, tList finals]))
+               | none, _ => .panic
+               | _, .panic => .panic
+               | _, _ => .unmodelled)
+           | some _, _ => .panic          -- `unreachable!()` in gen_helper_trait_bound / no angle-bracketed arguments
+           | none, _ => .ok none)
+       | _ => .ok none)
+    | _ => .panic
+
+end DI
